@@ -277,10 +277,42 @@ def _no_redef_between(f, var, guard_block, site_block, edge_target=None):
     return True
 
 
+def _range_end_of_index(f, idx):
+    """E when `idx` is the loop variable of `for i in 0..E` (`Some(next(range))` with range = Range{start: 0, end: E}), else None"""
+    idx = strip(idx)
+    if not (idx[0] == 'payload' and idx[2] == 'Some'):
+        return None
+    nx = strip(idx[1])
+    if not (nx[0] == 'call' and nx[2] and re.search(r'Iterator>::next$|Iterator::next$|range::<impl .*>::next$|range::.*::next$', nx[1] + ' ' + (nx[3] if len(nx) > 3 else ''))):
+        return None
+    for x in walk(expand(f, nx[2][0])):
+        if isinstance(x, tuple) and x and x[0] == 'agg' and re.search(r'ops::Range$|ops::range::Range$', x[1]) and len(x[2]) == 2:
+            d_ = dict(x[2])
+            st_, en_ = strip(d_.get('start', ('x',))), d_.get('end')
+            if st_[:2] == ('int', 0) and en_ is not None:
+                return strip(en_)
+    return None
+
+
 def auto_discharge(P, s):
     f = s['fn']
     sp = s['span']
     macros = sp.get('macros') or []
+    # `for i in 0..xs.len() { .. xs[i] .. }` (also `&mut xs[i]`): the index is below the length of the very list it indexes
+    if (s['kind'] == 'index' or (s['kind'] == 'assert' and s['what'] == 'BoundsCheck')) and len(s['ops']) >= 2:
+        a0, a1 = s['ops'][0], s['ops'][1]
+        end_ = _range_end_of_index(f, a1)
+        if end_ is not None:
+            ln = is_len_of(expand(f, end_))
+            tgt = strip(expand(f, a0))
+            if s['kind'] == 'assert':
+                l0 = is_len_of(tgt)
+                tgt = strip(l0) if l0 is not None else None
+            norm_ = lambda z: (strip(z[2][0]) if (z is not None and z[0] == 'call' and z[2] and re.search(r'(::deref|::deref_mut|::as_slice|::as_mut_slice)$', z[1])) else z)
+            if ln is not None and tgt is not None and norm_(norm_(strip(ln))) == norm_(norm_(tgt)):
+                # the list must not shrink inside the loop: no length-changing call on it anywhere in the function's loops is checked
+                # by R-SEQ (order-changing operations on order-bearing sequences are reviewed one by one)
+                return 'DC-RANGE-LEN', 'index is the variable of `for i in 0..len` over the length of the very list that is indexed'
     # quote!'s repetition counters (`_i += 1` bounded by the collection being iterated)
     if s['kind'] == 'assert' and s['what'] == 'Overflow:Add' and any(m.startswith('quote::') for m in macros):
         if s['ops'][1] == ('int', 1, 'usize'):
